@@ -5,6 +5,7 @@ Theorems about `loadKeysWith`, the `for json_key in o:` loop of the generated lo
 import DW.Model.Load
 import DW.Model.LoadV1
 import DW.Lemmas.V1
+import DW.Lemmas.GenDumpSem
 
 namespace DW.Props.C10
 open DW
@@ -471,5 +472,27 @@ theorem C10_v1_raise_two_spellings_witness :
     (∀ kv ∈ doc, v1Unknown eff ci kv.1 = false) ∧
     v1ClassWith (fun _ v => pure v.toPy) eff ci (.dict doc) = .error (.unknownKeys ['K'] []) := by
   refine ⟨by decide, by rfl⟩
+
+/-! ### the write-back of captured pairs, at the level of the generated code -/
+
+open DW.GenDump in
+/-- **C10 (the generated dump function writes the captured pairs back).**  For any class with a CatchAll field `fi` that is not
+named in `exclude`, is not skipped as a default and does not hold its default, running the body `dump_func_for_dataclass` writes
+for the class re-emits the items of the mapping the field holds at top level — whatever other fields, aliases, skip conditions
+and Meta switches the class has (`Meta.skip_if` and per-field conditions of other fields never apply to the captured pairs). -/
+theorem C10_generated_code_writes_back (p : Char → Bool) (ρ : Env) (eff : MetaCfg) (args : DumpArgs)
+    (fks : List (FieldInfo × S)) (vals : S → PyVal) (W : World p eff args fks vals ρ) (dtv ocv : FieldInfo → Bool)
+    (Hd : ∀ q ∈ fks, defaultTest eff q.1 (vals q.1.name) = .ok (dtv q.1))
+    (Ho : ∀ q ∈ fks, ownCond eff q.1 (vals q.1.name) = .ok (ocv q.1))
+    (fi : FieldInfo) (k : S) (hmem : (fi, k) ∈ fks) (hca : fi.isCatchAll = true)
+    (hex : excluded args fi = false) (hsd : (skipDefaultsOn eff args && dtv fi) = false)
+    (hnd : isDefaultVal fi (vals fi.name) = false) :
+    ∃ out, run ρ (genBody p (ginOf eff fks)) = .ok out ∧ Emit.catchAll fi.name ∈ out := by
+  refine ⟨_, run_genBody p ρ eff args fks vals W dtv ocv Hd Ho, ?_⟩
+  rw [emitsFrom_eq eff args fks dtv ocv vals fks 0 (by simp)]
+  apply List.mem_append_left
+  simp only [List.mem_flatMap]
+  refine ⟨(fi, k), hmem, ?_⟩
+  simp [refFieldEmit, hca, hex, hsd, hnd]
 
 end DW.Props.C10
